@@ -13102,7 +13102,8 @@ func NewPathAttributeMpReachNLRI(family Family, nlris []PathNLRI, nextHops ...ne
 	case SAFI_FLOW_SPEC_VPN, SAFI_FLOW_SPEC_UNICAST:
 	// Should not have Nexthop
 	case SAFI_MPLS_VPN:
-		l += BGP_ATTR_NHLEN_VPN_RD
+		// every next hop (global and link-local) is preceded by a zero RD
+		l += BGP_ATTR_NHLEN_VPN_RD * len(nhs)
 		fallthrough
 	default:
 		l += nhlen
